@@ -389,11 +389,28 @@ lp_upolynomial_t* lp_upolynomial_multiply_simple(const ulp_monomial_t* m, const 
 
   lp_upolynomial_t* result = lp_upolynomial_construct_copy(q);
 
-  size_t i;
-  for (i = 0; i < result->size; ++ i) {
+  size_t i, keep;
+  for (i = 0, keep = 0; i < result->size; ++ i) {
     integer_mul(q->K, &result->monomials[i].coefficient, &m->coefficient, &q->monomials[i].coefficient);
     result->monomials[i].degree += m->degree;
+    // the product can vanish (zero factor, or zero divisors in Z_m): keep non-zero terms only
+    if (integer_sgn(lp_Z, &result->monomials[i].coefficient) != 0) {
+      if (keep != i) {
+        integer_swap(&result->monomials[keep].coefficient, &result->monomials[i].coefficient);
+        result->monomials[keep].degree = result->monomials[i].degree;
+      }
+      keep ++;
+    }
   }
+  if (keep == 0) {
+    // the zero polynomial is the constant 0
+    result->monomials[0].degree = 0;
+    keep = 1;
+  }
+  for (i = keep; i < result->size; ++ i) {
+    umonomial_destruct(result->monomials + i);
+  }
+  result->size = keep;
 
   return result;
 }
@@ -491,6 +508,10 @@ lp_upolynomial_t* lp_upolynomial_pow(const lp_upolynomial_t* p, long pow) {
     integer_construct_from_int(lp_Z, &result->monomials[0].coefficient, 0);
     integer_pow(p->K, &result->monomials[0].coefficient, &p->monomials[0].coefficient, pow);
     result->monomials[0].degree = p->monomials[0].degree * pow;
+    if (integer_sgn(lp_Z, &result->monomials[0].coefficient) == 0) {
+      // nilpotent coefficient in Z_m: the zero polynomial is the constant 0
+      result->monomials[0].degree = 0;
+    }
   } else {
     result = lp_upolynomial_construct_power(p->K, 0, 1);
     lp_upolynomial_t* tmp = lp_upolynomial_construct_copy(p);
